@@ -93,7 +93,10 @@ class C32(Prop):
                   "'..'; any depth), a plain path below old_dir is mapped below new_dir and mapped back exactly, a "
                   "file:// location in canonical percent-encoding likewise (unquote (quote s) = s for every byte string), "
                   "other schemes are returned unchanged; the value-level recursion restores a whole CWL value whenever "
-                  "each of its file strings round-trips. The code before the fix is refuted (a%20b, 100%25). Tied to /repo "
+                  "each of its file strings round-trips, hence (C32_value_roundtrip_in_domain_partial) every value whose file "
+                  "strings are plain paths / canonical locations below old_dir or other-scheme URLs. Non-canonical spellings "
+                  "of a location are canonicalised, not restored (C32_noncanonical_location_refuted; C32_roundtrip_file is "
+                  "the statement for canonical locations only). The code before the fix is refuted (a%20b, 100%25). Tied to /repo "
                   "by running the real functions and the model on generated nested CWL values with hostile names.")
     LEVEL_NOTE = ("Partial: relative paths (os.getcwd()), control characters, invalid UTF-8 after decoding and URL strings on "
                   "which urlsplit raises are outside the model (such cases are run on the implementation and judged by the "
